@@ -157,7 +157,7 @@ def eval_family(case: dict) -> tuple[list, dict]:
     dname = case.get("dtype", "float64")
     dt, rtol = _dt(torch, dname), RTOL[dname] * case.get("rtol_factor", 1.0)
     problems, stats = [], dict(entries=0, compared=0, skipped=0)
-    site = f"oracle:{fam}"
+    site = "oracle:weibull" if fam == "weibull_src" else f"oracle:{fam}"
 
     def W(v, w=None):
         return WeightedTensor(v) if w is None else WeightedTensor(v, w)
@@ -285,13 +285,13 @@ def eval_family(case: dict) -> tuple[list, dict]:
                                              f"prohibitive FINITE penalty, implementation returns {v!r}", [int(i) for i in idx], f">= {PROHIBITIVE}, finite", v))
             if parts is not None:
                 ls, lh = _f64(parts[0]), _f64(parts[1])
-                _compare(np, ls, log_s, mag, ok, rtol, site + ":log-survival", f"{F_.__name__}.compute_log_survival", problems)
+                _compare(np, ls, log_s, mag, ok, rtol, site, f"{F_.__name__}.compute_log_survival", problems)
                 cens = ~dl & np.ones((n, e), dtype=bool)
                 for idx in zip(*np.nonzero(cens & (lh != 0.0))):
                     problems.append(_problem(f"{site}:censored-has-hazard-term", f"{F_.__name__}.compute_log_likelihood_hazard: a censored "
                                              f"individual contributes {float(lh[idx])!r} instead of 0 (survival term only)", [int(i) for i in idx], 0.0, float(lh[idx])))
                     break
-                _compare(np, lh, np.where(dl, log_h, 0.0), mag, ok & dl, rtol, site + ":log-hazard", f"{F_.__name__}.compute_log_likelihood_hazard", problems)
+                _compare(np, lh, np.where(dl, log_h, 0.0), mag, ok & dl, rtol, site, f"{F_.__name__}.compute_log_likelihood_hazard", problems)
         elif fam == "mixture":
             x, loc, sc, pr = (_t(torch, a[k], dt) for k in ("x", "loc", "scale", "probs"))
             MF = D.MixtureNormalFamily
@@ -390,14 +390,20 @@ def eval_state(case: dict) -> tuple[list, dict]:
         def low(*ts):   # float32 anywhere -> float32 tolerance
             return RTOL["float32" if any(getattr(t_, "dtype", None) == torch.float32 for t_ in ts) else "float64"] * case.get("rtol_factor", 1.0)
 
+        def group(var):
+            """signature site of a state variable: entries keep their own site, per-individual sums and totals share one"""
+            if var.startswith(("attach-entry", "regul-entry")):
+                return var.split(":")[0] + (":" + var.split(":")[1] if var.startswith("attach-entry") else "")
+            return "attach-sums" if var.startswith("nll_attach") else "regul-sums"
+
         def check(var, out, ref, mag, ok, rtol, label, atol=0.0):
             out = _f64(out)
             if out.shape != ref.shape:
-                problems.append(_problem(f"state:{var}:shape", f"{label}: shape {out.shape}, expected {ref.shape}"))
+                problems.append(_problem(f"state:{group(var)}:shape", f"state['{var}'] ({label}): shape {out.shape}, expected {ref.shape}"))
                 return
             stats["entries"] += ref.size
             stats["compared"] += int(ok.sum())
-            _compare(np, out, ref, mag, ok, rtol, f"state:{var}", f"state['{var}'] ({label})", problems, atol=atol)
+            _compare(np, out, ref, mag, ok, rtol, f"state:{group(var)}", f"state['{var}'] ({label})", problems, atol=atol)
 
         ind_terms, ind_ok, ind_mag, ind_pen = np.zeros(n), np.ones(n, dtype=bool), np.ones(n), np.zeros(n, dtype=bool)
         worst_rtol = RTOL["float64"]
@@ -444,11 +450,11 @@ def eval_state(case: dict) -> tuple[list, dict]:
                     stats["entries"] += n
                     stats["compared"] += n
                     for i in list(np.nonzero(~good_i)[0])[:3]:
-                        problems.append(_problem(f"state:{v_ind}:bernoulli:{_classify(float(got[i]))}", f"state['{v_ind}'][{i}] = {float(got[i])!r}, documented sum of the "
+                        problems.append(_problem(f"state:attach-sums:bernoulli:{_classify(float(got[i]))}", f"state['{v_ind}'][{i}] = {float(got[i])!r}, documented sum of the "
                                                  f"observed entries in [{float(s_lo[i])!r}, {float(s_hi[i])!r}]", [int(i)], [float(s_lo[i]), float(s_hi[i])], float(got[i])))
                     gt = float(_f64(st[v_tot]))
                     if not (s_lo.sum() - tol_i.sum() <= gt <= s_hi.sum() + tol_i.sum()):
-                        problems.append(_problem(f"state:{v_tot}:bernoulli:{_classify(gt)}", f"state['{v_tot}'] = {gt!r}, documented total in "
+                        problems.append(_problem(f"state:attach-sums:bernoulli:{_classify(gt)}", f"state['{v_tot}'] = {gt!r}, documented total in "
                                                  f"[{float(s_lo.sum())!r}, {float(s_hi.sum())!r}]", None, [float(s_lo.sum()), float(s_hi.sum())], gt))
                     ind_terms = ind_terms + np.where(np.isfinite(s_hi), s_hi, s_lo)
                     ind_ok &= np.isfinite(s_hi) & (np.abs(s_hi - s_lo) <= tol_i)      # totals compared only where the entries are unambiguous
@@ -508,13 +514,13 @@ def eval_state(case: dict) -> tuple[list, dict]:
                     v = float(got[i])
                     if not (math.isfinite(v) and v >= PROHIBITIVE):
                         cls = _classify(v) if not math.isfinite(v) else "not-prohibitive"
-                        problems.append(_problem(f"state:{v_ind}:event-before-reference-time:{cls}", f"state['{v_ind}'][{int(i)}] = {v!r} for an individual with an "
+                        problems.append(_problem(f"state:attach-sums:event-before-reference-time:{cls}", f"state['{v_ind}'][{int(i)}] = {v!r} for an individual with an "
                                                  "observed event at or before its reference time: must be a prohibitive FINITE penalty", [int(i)], f">= {PROHIBITIVE}, finite", v))
                 gt = float(_f64(st[v_tot]))
                 if pen_i.any():
                     if pen_i.sum() <= MAX_PENALISED_IN_TOTAL and not (math.isfinite(gt) and gt >= PROHIBITIVE):
                         cls = _classify(gt) if not math.isfinite(gt) else "not-prohibitive"
-                        problems.append(_problem(f"state:{v_tot}:event-before-reference-time:{cls}", f"state['{v_tot}'] = {gt!r} with {int(pen_i.sum())} penalised "
+                        problems.append(_problem(f"state:attach-sums:event-before-reference-time:{cls}", f"state['{v_tot}'] = {gt!r} with {int(pen_i.sum())} penalised "
                                                  "individual(s): must be finite", None, f">= {PROHIBITIVE}, finite", gt))
                 elif ok_i.all():
                     check(v_tot, st[v_tot], np.array(r_ind.sum()), np.array(m_ind.sum()), np.array(True), rtol * 2, "sum over individuals")
@@ -529,13 +535,13 @@ def eval_state(case: dict) -> tuple[list, dict]:
                 v = float(got[i])
                 if not (math.isfinite(v) and v >= PROHIBITIVE):
                     cls = _classify(v) if not math.isfinite(v) else "not-prohibitive"
-                    problems.append(_problem(f"state:nll_attach_ind:event-before-reference-time:{cls}", f"state['nll_attach_ind'][{int(i)}] = {v!r} for an individual "
+                    problems.append(_problem(f"state:attach-sums:event-before-reference-time:{cls}", f"state['nll_attach_ind'][{int(i)}] = {v!r} for an individual "
                                              "with an observed event at or before its reference time", [int(i)], f">= {PROHIBITIVE}, finite", v))
             gt = float(_f64(st["nll_attach"]))
             if ind_pen.any():
                 if ind_pen.sum() <= MAX_PENALISED_IN_TOTAL and not (math.isfinite(gt) and gt >= PROHIBITIVE):
                     cls = _classify(gt) if not math.isfinite(gt) else "not-prohibitive"
-                    problems.append(_problem(f"state:nll_attach:event-before-reference-time:{cls}", f"state['nll_attach'] = {gt!r} with {int(ind_pen.sum())} "
+                    problems.append(_problem(f"state:attach-sums:event-before-reference-time:{cls}", f"state['nll_attach'] = {gt!r} with {int(ind_pen.sum())} "
                                              "penalised individual(s): must be finite", None, f">= {PROHIBITIVE}, finite", gt))
             elif ind_ok.all():
                 check("nll_attach", st["nll_attach"], np.array(ind_terms.sum()), np.array(ind_mag.sum()), np.array(True), worst_rtol, "sum over individuals")
@@ -551,7 +557,7 @@ def eval_state(case: dict) -> tuple[list, dict]:
                     mag = 1.0 + 0.5 * ((X - mu) / sg) ** 2 + np.abs(np.log(sg))
                 ent = st.dag[name].prior.get_func_regularization(name)(**{q: st[q] for q in (name,) + pn}).value
                 lvl = "individual" if is_ind else "population"
-                check(f"regul-entry:{lvl}", ent, ref, mag, np.isfinite(ref), rtol, f"entries of the regularization of `{name}` (Normal prior)", atol=C32_SLACK)
+                check("regul-entry", ent, ref, mag, np.isfinite(ref), rtol, f"entries of the regularization of `{name}` (Normal prior)", atol=C32_SLACK)
                 if is_ind:
                     r_i, m_i = ref.reshape(n, -1).sum(1), mag.reshape(n, -1).sum(1)
                     check("nll_regul_*_ind", st[f"nll_regul_{name}_ind"], r_i, m_i, np.isfinite(r_i), rtol * 4,
